@@ -370,9 +370,10 @@ class Ctx:
 ARITH_LEAN = os.path.join(LEAN, "Mtv", "Gen", "Arith.lean")
 ARITH_THEOREMS = {
     "C10": ["Mtv.Arith.generateMessageId_is_genId", "Mtv.Arith.generateMessageId_after_2038_negative",
-            "Mtv.Arith.sendPacketMsgId_is_nextId", "Mtv.Arith.seqNoContent_odd", "Mtv.Arith.seqNo_of_even"],
+            "Mtv.Arith.sendPacketMsgId_is_nextId", "Mtv.Arith.seqNoContent_odd", "Mtv.Arith.seqNo_of_even",
+            "Mtv.Arith.code_send_enabled"],
     "C05": ["Mtv.Arith.encryptPaddedLen_is_padLen", "Mtv.Arith.encryptPaddedLen_aligned", "Mtv.Arith.tempNeedToAdd_is_tempPadLen"],
-    "C08": ["Mtv.Arith.abridged_length_bytes"],
+    "C08": ["Mtv.Arith.abridged_length_bytes", "Mtv.Arith.code_abridged_frame"],
     "C04": ["Mtv.Arith.parityMod_is_mod4"],
 }
 
